@@ -615,8 +615,11 @@ def run(ck):
     # --- 1. murmur2 on byte strings (ops 1 and 5: impl vs python-model and vs Java-model)
     keys = [[], [0], [255], [0x80] * 3, list(b"abc"), list(b"21"), list(b"foobar"),
             list(b"a-little-bit-long-string"), list(range(256))]
-    keys += [gen_key(rnd) for _ in range(700 * kscale)]
+    keys += [gen_key(rnd) for _ in range(700 * scale)]
     if not tie_a:
+        # x20 keys; the additional ones are short (the structure of the hash is exhausted by lengths 0..64: whole blocks,
+        # every tail length, empty input) so that the run stays within the time budget
+        keys += [key_of_len(rnd, rnd.randint(0, 64)) for _ in range(700 * (kscale - scale))]
         keys += all_lengths_high(rnd)
         ck.hist("keys_added_because_translator_tie_is_down", len(keys))
     for k in keys:
